@@ -11,8 +11,51 @@ def strip(ans):
     return " ".join(t for t in ans.split()[1:] if not (t.startswith("H") or t.startswith("Y") or t.startswith("LK") or t.startswith("PM")))
 
 
+# Every writable object with static storage duration in the library, as the C12 argument accounts for it (header of
+# Properties_C12.v): anything else is shared state the locality argument knows nothing about.
+GLOBALS = {
+    "of_seed": "PRNG state: overwritten by every accepted configuration before its first read (ldpc_configuration_is_independent)",
+    "of_verbosity": "trace level, printing only",
+    "of_rs_initialized": "codec 1 tables built once, idempotently; content proved canonical (C14)",
+    "of_gf_mul_table": "codec 1 table (C14)", "of_rs_gf_exp": "codec 1 table (C14)", "of_rs_gf_log": "codec 1 table (C14)",
+    "of_rs_inverse": "codec 1 table (C14)",
+    "of_hw8table": "popcount byte table, never written (content: C18)",
+    "of_copyrights_string": "string constant", "of_version_string": "string constant",
+}
+
+
+def global_inventory(snap):
+    """names of the writable static-storage objects (nm classes b/B/d/D/C/s/S/g/G) of the library compiled from the snapshot"""
+    import re, shutil, tempfile
+    d = tempfile.mkdtemp(prefix="ofv-nm-", dir=os.path.dirname(snap.dir))
+    try:
+        cmd = ["gcc", "-c", "-O1", "-w", "-DOPENFEC_LITTLE_ENDIAN"]
+        for root, dirs, files in os.walk(snap.src):
+            cmd.append("-I" + root)
+        rc, so, se = vlib.sh(cmd + snap.sources(), cwd=d, timeout=600)
+        if rc != 0:
+            raise vlib.BuildError("library does not compile: " + se[-2000:])
+        rc, so, se = vlib.sh("nm -A *.o", cwd=d)
+        out = {}
+        for l in so.splitlines():
+            m = re.match(r"(\S+?):\S*\s+([bBdDCsSgG])\s+(\S+)$", l)
+            if m:
+                out[re.sub(r"\.\d+$", "", m.group(3))] = m.group(1)
+        return out
+    finally:
+        shutil.rmtree(d, ignore_errors=True)
+
+
 def run(c):
     c.prove(["Properties_C12.v"])
+    inv = global_inventory(c.snap)
+    extra = sorted(set(inv) - set(GLOBALS))
+    c.obligations.append(("global-state inventory (nm over the compiled library) = the objects the locality argument accounts for", not extra))
+    c.cov["global_state"] = {g: GLOBALS.get(g, "UNACCOUNTED") for g in sorted(inv)}
+    if extra:
+        c.proof_failed.append({"correspondence": "shared-state inventory", "unaccounted_writable_globals": {g: inv[g] for g in extra},
+                               "note": "the library now has static-storage objects that the independence argument (Properties_C12.v header) does not cover; "
+                                       "any session can reach them, so a session's behaviour may depend on other sessions"})
     rng = c.rng
     groups = []
     for _ in range(60 if c.tier == "quick" else 600):
